@@ -1,5 +1,17 @@
+mod exec;
+mod gen;
 mod golden;
+mod props;
+mod run;
 mod util;
+mod wire;
+
+use std::io::{BufRead, Write};
+
+fn usage() -> ! {
+    eprintln!("usage: ccharness golden-gen <file> | exec [file] | run <prop> <tier> <seed> <driver> <out.json> | replay <driver> <file>");
+    std::process::exit(2);
+}
 
 fn main() {
     let args: Vec<String> = std::env::args().collect();
@@ -8,9 +20,83 @@ fn main() {
             let s = golden::generate();
             std::fs::write(&args[2], s).unwrap();
         }
-        _ => {
-            eprintln!("usage: ccharness <cmd> ...");
-            std::process::exit(2);
+        Some("exec") => {
+            let mut real = exec::Real::new();
+            let input: Box<dyn BufRead> = match args.get(2) {
+                Some(p) => Box::new(std::io::BufReader::new(std::fs::File::open(p).unwrap())),
+                None => Box::new(std::io::BufReader::new(std::io::stdin())),
+            };
+            let out = std::io::stdout();
+            let mut out = out.lock();
+            for line in input.lines() {
+                let line = line.unwrap();
+                writeln!(out, "{}", real.step(&line)).unwrap();
+            }
         }
+        Some("run") => {
+            if args.len() < 7 {
+                usage();
+            }
+            let prop = args[2].as_str();
+            let tier = args[3].as_str();
+            let seed: u64 = args[4].parse().unwrap_or(0);
+            let driver = args[5].as_str();
+            let out = args[6].as_str();
+            let workers: usize = std::env::var("VERIF_WORKERS").ok().and_then(|s| s.parse().ok()).unwrap_or(16);
+            let thorough = tier == "thorough";
+            let plan = match prop {
+                "C15" => props::plan_c15(tier, seed),
+                "C01" | "C02" => props::plan_c01(tier, seed, if thorough { 6000 } else { 400 }),
+                "C03" | "C04" | "C05" | "C06" | "C09" | "C10" | "C11" | "C13" | "C17" | "C18" => {
+                    props::plan_history(prop, tier, seed, if thorough { 3000 } else { 150 })
+                }
+                _ => {
+                    eprintln!("no differential campaign for {prop}");
+                    std::process::exit(2);
+                }
+            };
+            let t0 = std::time::Instant::now();
+            let o = run::run_cases(driver, plan.cases, workers, 3);
+            let j = run::outcome_json(
+                prop,
+                tier,
+                seed,
+                &o,
+                serde_json::json!({"rule": plan.rule, "exhaustive": plan.exhaustive, "wall_s": t0.elapsed().as_secs_f64()}),
+            );
+            std::fs::write(out, serde_json::to_string_pretty(&j).unwrap()).unwrap();
+            eprintln!(
+                "{prop} {tier} cfg={} cases={} lines={} distinct={} mismatches={} soft={} ({:.1}s)",
+                util::CFG,
+                o.stats.cases,
+                o.stats.lines,
+                o.stats.distinct.len(),
+                o.mismatches.len(),
+                o.stats.soft_kind_mismatch,
+                t0.elapsed().as_secs_f64()
+            );
+        }
+        Some("replay") => {
+            // re-execute the op lines of a replay file on both sides and print the first disagreement
+            let driver = args[2].as_str();
+            let txt = std::fs::read_to_string(&args[3]).unwrap();
+            let lines: Vec<String> = match serde_json::from_str::<serde_json::Value>(&txt) {
+                Ok(v) => v["lines"].as_array().map(|a| a.iter().filter_map(|x| x.as_str().map(|s| s.to_string())).collect()).unwrap_or_default(),
+                Err(_) => txt.lines().map(|s| s.to_string()).collect(),
+            };
+            let i = run::run_impl(&lines);
+            let m = run::run_model(driver, &lines);
+            for k in 0..lines.len() {
+                println!("> {}\n  impl : {}\n  model: {}", lines[k], i[k], m.get(k).cloned().unwrap_or_default());
+            }
+            match run::first_mismatch(&lines, &i, &m) {
+                Some((k, kind)) => {
+                    println!("DISAGREE at line {k} ({kind})");
+                    std::process::exit(1);
+                }
+                None => println!("AGREE"),
+            }
+        }
+        _ => usage(),
     }
 }
